@@ -821,7 +821,9 @@ def check_c10(ctx):
 
     def one(sd):
         e = dict(os.environ); e['TSAN_OPTIONS'] = 'halt_on_error=0 report_signal_unsafe=0'
-        p = subprocess.run([exe, str(sd), str(2 + sd % 5), str(800 + 400 * (sd % 4))], stdout=subprocess.PIPE, stderr=subprocess.PIPE, env=e, timeout=600)
+        # every third run: one writer and a consumer in lock step over many laps of a small queue (lap mode)
+        args = [exe, str(sd), '1', '4000', 'lap'] if sd % 3 == 2 else [exe, str(sd), str(2 + sd % 5), str(800 + 400 * (sd % 4))]
+        p = subprocess.run(args, stdout=subprocess.PIPE, stderr=subprocess.PIPE, env=e, timeout=600)
         return sd, p.returncode, p.stdout.decode()[-200:], p.stderr.decode()
     import subprocess
     with ThreadPoolExecutor(max_workers=8) as ex:
@@ -835,7 +837,7 @@ def check_c10(ctx):
             prop_fail.add(sd)
             first = err.split('WARNING: ThreadSanitizer')[1][:1800] if 'WARNING: ThreadSanitizer' in err else err[-1500:]
             ctx.violation('tsan-%d' % sd, 'C10: ThreadSanitizer reports a data race in documented-concurrent use of one session (seed %d)' % sd,
-                          {'kind': 'schedule', 'seed': sd, 'cmd': '%s %d %d %d' % (exe, sd, 2 + sd % 5, 800 + 400 * (sd % 4)), 'tsan_report': first})
+                          {'kind': 'schedule', 'seed': sd, 'cmd': ('%s %d 1 4000 lap' % (exe, sd)) if sd % 3 == 2 else '%s %d %d %d' % (exe, sd, 2 + sd % 5, 800 + 400 * (sd % 4)), 'tsan_report': first})
             if len(prop_fail) >= 3:
                 break
     ctx.streams['tsan_scenarios'] = {'runs': len(res), 'events_logged': logged, 'reports': len(prop_fail)}
@@ -847,7 +849,7 @@ def check_c10(ctx):
     ctx.coverage.update({'evaluations': len(res), 'distinct_nontrivial': len(res), 'traces_validated_against_impl': len(res) - len(prop_fail),
                          'rule': 'ThreadSanitizer runs of the real, unmodified headers: 2..6 writer threads (log with small queues forcing channel '
                                  'replacement, rename, move, destroy+create), a consumer thread and an administrator thread (setClockSync, '
-                                 'setMinSeverity, addEventSource, reconsumeMetadata), randomised by seed; TSan is the failing-input finder, the '
+                                 'setMinSeverity, addEventSource, reconsumeMetadata), randomised by seed; every third run is one writer and a consumer in lock step (relaxed phase counter) over thousands of laps of a 60..200 byte queue with the consumer lagging at random; TSan is the failing-input finder, the '
                                  'claim is the lockset theorem instantiated with the access table extracted from the sources, plus C01 for the queue'})
     ctx.samples = ['%s <seed> <writers> <iterations>' % os.path.basename(exe)]
     ctx.assumptions.append('mutex sections are atomic steps (standard DRF argument); constructors/destructors run while the object is not shared; '
